@@ -97,6 +97,11 @@ func (f *Frame) instr(ins ssa.Instruction, st *State) bool {
 		if v.T.S == "" && v.Clo != nil {
 			v.T = un.eng.funcRef(v.Clo.Fn)
 		}
+		if v.T.S == "" && v.LV != nil {
+			// an interior pointer stored in an interface (heap.Push(&pq.pq, x)): opaque value, location kept
+			f.vals[x] = Val{T: un.fresh("ifaceOfLoc", SIface), LV: v.LV, Go: x.Type(), Dyn: x.X.Type()}
+			return false
+		}
 		if v.T.S == "" {
 			f.fail("MakeInterface of non-first-class value")
 		}
